@@ -137,6 +137,34 @@ def r4_1(ctx):
             ctx.ob("make_move:king-cache-value:%s" % e[1], okv, b.where(loc), "`%s` must store the move's destination square" % b.text_at(loc)[:70])
 
 
+def _true_conditions(b, ex, bb, depth=0):
+    """Boolean conditions known to hold on entry to bb: those of the dominating edges, and - where a
+    dominating edge says that a merged variable holds variant V (`if let Some(h) = rook_move`) and exactly
+    one of its literal definitions builds V - those that hold where that definition was executed."""
+    out = []
+    for d, vals, excl, s_, tg in dominating_facts(b, ex, bb):
+        if b.term(s_)["discr_ty"] == "bool":
+            if (vals is None and excl == [0]) or vals == [1]:
+                out.append(d)
+            continue
+        d0 = strip_refs(d)
+        if depth < 2 and d0[0] == "discr" and vals and len(vals) == 1:
+            x = strip_refs(d0[1])
+            if x[0] == "var" and all(k == "whole" for _, k in x[2]):
+                hit = []
+                for (dbb, di), _k in x[2]:
+                    st = b.stmts(dbb)
+                    if di < len(st) and st[di]["rv"]["k"] == "aggregate" and st[di]["rv"].get("vi") is not None:
+                        if st[di]["rv"]["vi"] == vals[0]:
+                            hit.append(dbb)
+                    else:
+                        hit = None
+                        break
+                if hit and len(hit) == 1 and hit[0] in b.reachable:
+                    out += _true_conditions(b, ex, hit[0], depth + 1)
+    return out
+
+
 def r4_3(ctx):
     """Corner squares <-> rights by finite instantiation of the string guards; castling strings and
     rook hops against the oracle."""
@@ -172,41 +200,59 @@ def r4_3(ctx):
     ctx.ob("make_move:corner-texts", True, b.file, "%d (text, corner) instances evaluated; %d string guards decided per text" % (n, ndec), nontrivial=False)
     ctx.floor("string guards decided per move text", ndec, 4)
     ctx.floor("corner text instances", n, 60)
-    # castling strings: under `player_move == S` there is the rook hop of the oracle
-    hops = {}
-    for loc, e in ev.items():
-        if e[0] == "call" and e[1] == MOVE:
-            a, c = strip_refs(e[2][1]), strip_refs(e[2][2])
-            if a[0] == "agg" and c[0] == "agg" and all(x[0] == "const" for x in a[3] + c[3]):
-                hops[loc] = ((a[3][0][1], a[3][1][1]), (c[3][0][1], c[3][1][1]))
+    # castling strings: for each castling text the body is specialised to `player_move == text` (string
+    # guards evaluated, selected values folded); there the rook hop of the oracle must be the one extra
+    # move_piece with constant squares, and it must depend on the mover being that side's king
+    from wa.cond import specialise
     seen = set()
-    guarded = 0
-    for loc, (rf, rt) in sorted(hops.items()):
-        texts = []
-        for d, vals, excl, s, tg in dominating_facts(b, ex, loc[0]):
-            truth = (vals is None and excl == [0]) or vals == [1]
-            if truth and d[0] == "bin" and d[1] == "Eq":
-                for x, k in ((strip_refs(d[2]), strip_refs(d[3])), (strip_refs(d[3]), strip_refs(d[2]))):
-                    if k[0] == "str" and x == ("arg", sp):
-                        texts.append(k[1])
-        label = "%s->%s" % (chess.name(rf) if 2 <= rf[0] <= 9 and 2 <= rf[1] <= 9 else rf, chess.name(rt) if 2 <= rt[0] <= 9 and 2 <= rt[1] <= 9 else rt)
-        ok = False
-        why = "rook hop %s under move text %s" % (label, texts)
-        if len(texts) == 1:
-            for right, (kf, kt, rf_o, rt_o, _, _) in chess.CASTLING.items():
-                if texts[0] == kf + kt:
-                    ok = (rf, rt) == (chess.sq(rf_o), chess.sq(rt_o))
-                    why += "; oracle: %s%s moves the rook %s->%s" % (kf, kt, rf_o, rt_o)
-                    if ok:
-                        seen.add(right)
-        if not texts:
-            continue   # castling recognised by other means than the move text: this table rule does not apply
-        guarded += 1
-        ctx.ob("make_move:rook-hop:%s" % texts[0], ok, b.where(loc), why)
-    if guarded:
-        ctx.ob("make_move:all-four-castling-texts", seen == set(chess.CASTLING), b.file, "castling texts with a correct rook hop: %s" % sorted(seen))
-    else:
-        ctx.ob("make_move:castling-texts", True, b.file, "castling is not recognised by text comparison here; table rule not applicable", nontrivial=False)
+    for right, (kf, kt, rf_o, rt_o, _c, _d) in sorted(chess.CASTLING.items()):
+        text = kf + kt
+        want_col = chess.RIGHT_COLOUR[right]
+        ref, _dec = refuted_edges_concrete(b, ex, {("arg", sp): text, ("deref", ("arg", sp)): text})
+        b1 = b.restrict(ref)
+        b2, ex2, _dead = specialise(b1, {}, {})
+        hops = {}
+        for bb, t in b2.iter_calls(callee=MOVE):
+            al = operand_alias(b2, t["args"][0])
+            if not (al and al[0] == bp):
+                continue
+            args = ex2.call_args(bb)
+            a, c = strip_refs(args[1]), strip_refs(args[2])
+            if a[0] == "agg" and c[0] == "agg" and all(x[0] == "const" for x in a[3] + c[3]):
+                hops[bb] = ((a[3][0][1], a[3][1][1]), (c[3][0][1], c[3][1][1]))
+        want = (chess.sq(rf_o), chess.sq(rt_o))
+        ok = bool(hops) and set(hops.values()) == {want}
+        ctx.ob("make_move:rook-hop:%s" % text, ok, b.where(b.term_loc(sorted(hops)[0])) if hops else b.file,
+               "under move text `%s` the rook is moved %s->%s (constant-square move_piece calls on this text: %s)" % (
+                   text, rf_o, rt_o, sorted(set(hops.values()))))
+        if ok:
+            seen.add(right)
+        for hb in sorted(hops):
+            king_test = False
+            for d in _true_conditions(b2, ex2, hb):
+                for x in subexprs(d):
+                    if x[0] == "call" and x[1].endswith("board::Piece::king") and x[2]:
+                        c_ = strip_refs(x[2][0])
+                        if c_[0] != "agg" or c_[2] == want_col:
+                            king_test = True
+                    if x == ("agg", "board::PieceKind", "King", ()):
+                        cols = [y[2] for y in subexprs(d) if y[0] == "agg" and y[1] == "board::PieceColor"]
+                        if not cols or want_col in cols:
+                            king_test = True
+            ctx.ob("make_move:rook-hop:%s:only-for-the-king" % text, king_test, b.where(b.term_loc(hb)),
+                   "the rook hop of `%s` is taken only when the %s king is the piece that moved%s" % (
+                       text, want_col, "" if king_test else ": NOT so - no test of the king guards it, so a queen or rook travelling %s drags the corner rook along" % text))
+    ctx.ob("make_move:all-four-castling-texts", seen == set(chess.CASTLING), b.file, "castling texts with a correct rook hop: %s" % sorted(seen))
+    # and an ordinary text moves nothing but the piece named
+    ref, _dec = refuted_edges_concrete(b, ex, {("arg", sp): "d4e5", ("deref", ("arg", sp)): "d4e5"})
+    b2, ex2, _dead = specialise(b.restrict(ref), {}, {})
+    extra = []
+    for bb, t in b2.iter_calls(callee=MOVE):
+        args = ex2.call_args(bb)
+        a, c = strip_refs(args[1]), strip_refs(args[2])
+        if a[0] == "agg" and c[0] == "agg" and all(x[0] == "const" for x in a[3] + c[3]):
+            extra.append(bb)
+    ctx.ob("make_move:no-hop-on-ordinary-text", not extra, b.where(b.term_loc(extra[0])) if extra else b.file, "under `d4e5` no constant-square move_piece is reachable")
 
 
 def r4_4(ctx):
